@@ -175,3 +175,56 @@ func VerifC14Serve(k1, k2, k3 int) {
 	}
 	verifReach("end")
 }
+
+// verifManyConn: n datagrams, then (all reads done) the handlers are released and reading fails.
+type verifManyConn struct {
+	verifConn
+	release chan struct{}
+}
+
+func (c *verifManyConn) ReadFrom(b []byte) (int, net.Addr, error) {
+	if c.closes == 0 && c.pos >= len(c.script) {
+		close(c.release)
+	}
+	return c.verifConn.ReadFrom(b)
+}
+
+// VerifC14Many: a long sequence: n valid datagrams (symbolic transaction ids and option bytes) whose
+// handlers all block until every datagram has been read (handlers that outlive the next reads);
+// every one must be dispatched exactly once, in a message of its own, and Serve must return.
+func VerifC14Many(n int) {
+	conn := &verifManyConn{release: make(chan struct{})}
+	var want []verifExpect
+	for i := 0; i < n; i++ {
+		peer := &net.UDPAddr{IP: net.IP{0x20, 1, 0xd, 0xb8, 0, 0, 0, 0, 0, 0, 0, 0, 0, 0, byte(i >> 8), byte(i)}, Port: 546}
+		d := verifDatagram(0)
+		conn.script = append(conn.script, verifRead{data: d, peer: peer})
+		want = append(want, verifExpect{wire: d, peer: peer})
+	}
+	var calls []verifCallRec
+	s := &Server{conn: conn, logger: EmptyLogger{}, handler: func(c net.PacketConn, peer net.Addr, m dhcpv6.DHCPv6) {
+		<-conn.release
+		calls = append(calls, verifCallRec{c, peer, m})
+	}}
+	err := s.Serve()
+	verifSettle()
+	verifAssert(err == errVerifRead, "serve-returns-read-error")
+	verifAssert(conn.pos == len(conn.script), "every-datagram-was-read")
+	verifAssert(len(calls) == n, "handler-invoked-exactly-once-per-valid-datagram")
+	verifObserveInt("dispatched", len(calls))
+	if len(calls) == n {
+		used := make([]bool, n)
+		for _, c := range calls {
+			for j, e := range want {
+				if !used[j] && c.peer == e.peer {
+					used[j] = true
+					verifAssert(verifSame(c.m.ToBytes(), e.wire), "handler-got-the-decoded-message-and-the-sender-as-peer")
+				}
+			}
+		}
+		for j := range used {
+			verifAssert(used[j], "every-datagram-dispatched")
+		}
+	}
+	verifReach("end")
+}
